@@ -343,3 +343,172 @@ Proof.
   pose proof (sim bs H 0 0 0 [] ltac:(left; auto)) as S. unfold bits_of, pend in S.
   change (0 =? 0) with true in S. cbv iota in S. exact S.
 Qed.
+
+Lemma D_ok_lt32 data : forall y bits ret r, D data y bits ret = Ok r -> Forall (fun d => d < 32) data.
+Proof.
+  induction data as [|v t IH]; intros y bits ret r H; [constructor|]. cbn [D] in H.
+  destruct (32 <=? v) eqn:E; [discriminate|]. constructor; [lia|].
+  destruct (8 <=? bits + 5); eapply IH; exact H.
+Qed.
+
+(* ToBase32 produces u5 values *)
+Theorem to_base32_lt32 bs : bytes_ok bs -> Forall (fun d => d < 32) (to_base32 bs).
+Proof.
+  intros H. pose proof (sim bs H 0 0 0 [] ltac:(left; auto)) as S. unfold bits_of in S.
+  change (0 =? 0) with true in S. cbv iota in S. eapply D_ok_lt32. exact S.
+Qed.
+
+(* ================= 3. decode (encode hrp data) ================= *)
+Definition char_ok (d : N) : bool :=
+  let c := to_char d in
+  (c <? 128) && negb (is_upper c) && negb (c =? 49)
+  && (nth (N.to_nat c) charset_rev (-1)%Z =? Z.of_N d)%Z.
+Lemma charset_sweep : forallb (fun i => char_ok (N.of_nat i)) (seq 0 32) = true.
+Proof. vm_compute. reflexivity. Qed.
+Lemma char_ok_all d : d < 32 -> char_ok d = true.
+Proof.
+  intros H. pose proof charset_sweep as S. rewrite forallb_forall in S.
+  specialize (S (N.to_nat d)). rewrite N2Nat.id in S. apply S. apply in_seq. lia.
+Qed.
+
+Lemma decode_char_to_char case d : d < 32 -> case <> CUpper ->
+  exists case', decode_char case (to_char d) = Ok (case', d) /\ case' <> CUpper.
+Proof.
+  intros Hd Hc. pose proof (char_ok_all d Hd) as K. unfold char_ok in K. cbv zeta in K.
+  rewrite !andb_true_iff, !negb_true_iff in K. destruct K as (((K1 & K2) & K3) & K4).
+  unfold decode_char. destruct (128 <=? to_char d) eqn:E; [lia|]. rewrite K2.
+  assert (Hn : nth (N.to_nat (to_char d)) charset_rev (-1)%Z = Z.of_N d) by lia. rewrite Hn.
+  assert (Hr : ((31 <? Z.of_N d)%Z || (Z.of_N d <? 0)%Z) = false) by lia. rewrite Hr, N2Z.id.
+  destruct (is_lower (to_char d)).
+  - destruct case; [congruence| |]; (eexists; split; [reflexivity|discriminate]).
+  - eexists; split; [reflexivity|exact Hc].
+Qed.
+
+Lemma decode_chars_to_char ds : Forall (fun d => d < 32) ds -> forall case, case <> CUpper ->
+  decode_chars case (map to_char ds) = Ok ds.
+Proof.
+  induction 1 as [|d t Hd _ IH]; intros case Hc; [reflexivity|]. cbn [map decode_chars].
+  destruct (decode_char_to_char case d Hd Hc) as (case' & E & Hc'). rewrite E. cbn [bind].
+  rewrite (IH case' Hc'). reflexivity.
+Qed.
+
+Lemma to_char_not_sep ds : Forall (fun d => d < 32) ds -> Forall (fun c => c <> 49) (map to_char ds).
+Proof.
+  induction 1 as [|d t Hd _ IH]; [constructor|]. cbn [map]. constructor; [|exact IH].
+  pose proof (char_ok_all d Hd) as K. unfold char_ok in K. cbv zeta in K.
+  rewrite !andb_true_iff, !negb_true_iff in K. lia.
+Qed.
+
+(* --- the separator is the LAST '1' --- *)
+Lemma rfind_go_notin c b : Forall (fun x => x <> c) b -> forall i last, rfind_go c b i last = last.
+Proof.
+  induction 1 as [|x t Hx _ IH]; intros i last; [reflexivity|]. cbn [rfind_go].
+  destruct (x =? c) eqn:E; [lia|]. apply IH.
+Qed.
+Lemma rfind_go_last c a b : Forall (fun x => x <> c) b -> forall i last,
+  rfind_go c (a ++ c :: b) i last = Some (i + length a)%nat.
+Proof.
+  intros Hb. induction a as [|x t IH]; intros i last.
+  - cbn [app rfind_go length]. rewrite N.eqb_refl, rfind_go_notin by exact Hb. f_equal. lia.
+  - cbn [app rfind_go length]. rewrite IH. f_equal. lia.
+Qed.
+Lemma rfind_last c a b : Forall (fun x => x <> c) b -> rfind c (a ++ c :: b) = Some (length a).
+Proof. intros H. unfold rfind. now rewrite rfind_go_last. Qed.
+
+(* --- check_hrp and lower-casing --- *)
+Lemma check_go_has_lower hrp : forall hu c, check_hrp_go hrp true hu = Ok c -> c <> CUpper.
+Proof.
+  induction hrp as [|b t IH]; intros hu c H; cbn [check_hrp_go] in H.
+  - destruct hu; injection H as <-; discriminate.
+  - destruct ((b <? 33) || (126 <? b)); [discriminate|].
+    destruct (is_lower b).
+    + cbn [andb] in H. destruct hu; [discriminate|]. eapply IH; exact H.
+    + destruct (is_upper b); cbn [andb] in H; [discriminate|].
+      destruct hu; [discriminate|]. eapply IH; exact H.
+Qed.
+
+Lemma is_lower_lowercase b : is_upper b = true -> is_lower (lowercase b) = true /\ is_upper (lowercase b) = false
+  /\ ((lowercase b <? 33) || (126 <? lowercase b)) = false.
+Proof. intros H. unfold lowercase. rewrite H. unfold is_upper, is_lower in *. lia. Qed.
+
+Lemma lowercase_id b : is_upper b = false -> lowercase b = b.
+Proof. unfold lowercase. now intros ->. Qed.
+
+Lemma check_go_upper hrp : forall hu, check_hrp_go hrp false hu = Ok CUpper ->
+  check_hrp_go (map lowercase hrp) hu false = Ok CLower.
+Proof.
+  induction hrp as [|b t IH]; intros hu H; cbn [check_hrp_go map] in *.
+  - destruct hu; [reflexivity|discriminate].
+  - destruct ((b <? 33) || (126 <? b)) eqn:R; [discriminate|].
+    destruct (is_lower b) eqn:L.
+    + cbn [andb] in H. destruct hu; [discriminate|]. exfalso. eapply check_go_has_lower; [exact H|reflexivity].
+    + destruct (is_upper b) eqn:U.
+      * cbn [andb] in H. destruct (is_lower_lowercase b U) as (L' & U' & R'). rewrite R', L'.
+        cbn [andb]. apply IH in H. destruct hu; exact H.
+      * cbn [andb] in H. rewrite (lowercase_id b U), R, L, U.
+        destruct hu; cbn [andb]; apply IH; exact H.
+Qed.
+
+Lemma check_hrp_lowered hrp c : check_hrp hrp = Ok c ->
+  exists c', check_hrp (hrp_lower c hrp) = Ok c' /\ c' <> CUpper.
+Proof.
+  unfold check_hrp. intros H. destruct c; cbn [hrp_lower].
+  - rewrite map_length. destruct ((length hrp =? 0)%nat || (83 <? length hrp)%nat); [discriminate|].
+    exists CLower. split; [apply check_go_upper; exact H|discriminate].
+  - exists CLower. split; [exact H|discriminate].
+  - exists CNone. split; [exact H|discriminate].
+Qed.
+
+Lemma check_hrp_nonempty hrp c : check_hrp hrp = Ok c -> (1 <= length hrp <= 83)%nat.
+Proof.
+  unfold check_hrp. destruct (length hrp =? 0)%nat eqn:E1; [discriminate|].
+  destruct (83 <? length hrp)%nat eqn:E2; [discriminate|]. intros _.
+  apply Nat.eqb_neq in E1. apply Nat.ltb_ge in E2. lia.
+Qed.
+
+Lemma firstn_len {A} (l r : list A) : firstn (length l) (l ++ r) = l.
+Proof. induction l as [|x t IH]; [reflexivity|]. cbn. now rewrite IH. Qed.
+Lemma skipn_len {A} (l r : list A) : skipn (length l) (l ++ r) = r.
+Proof. induction l as [|x t IH]; [reflexivity|]. cbn. exact IH. Qed.
+
+Lemma skipn_add_hl (hl r : list N) : skipn (length hl + 1) (hl ++ 49 :: r) = r.
+Proof. induction hl as [|x t IH]; [reflexivity|]. cbn [length app]. exact IH. Qed.
+
+Lemma create_checksum_props hrp data :
+  length (create_checksum hrp data) = 6%nat /\ Forall (fun d => d < 32) (create_checksum hrp data).
+Proof. unfold create_checksum. split; [reflexivity|]. repeat constructor; apply N.mod_lt; lia. Qed.
+
+Lemma encode_shape hrp data c : check_hrp hrp = Ok c ->
+  encode hrp data = Ok (hrp_lower c hrp ++ 49 :: map to_char (data ++ create_checksum (hrp_lower c hrp) data)).
+Proof. intros H. unfold encode. rewrite H, map_app. reflexivity. Qed.
+
+(* decode (encode hrp data) = (lower-cased hrp, data): every accepted HRP, every u5 list, no length limit *)
+Theorem decode_encode hrp data s : Forall (fun d => d < 32) data -> encode hrp data = Ok s ->
+  exists c, check_hrp hrp = Ok c /\ decode s = Ok (hrp_lower c hrp, data).
+Proof.
+  intros Hd He. destruct (check_hrp hrp) as [c| | |] eqn:Ec;
+    try (unfold encode in He; rewrite Ec in He; discriminate).
+  rewrite (encode_shape hrp data c Ec) in He.
+  exists c. split; [reflexivity|].
+  remember (hrp_lower c hrp) as hl eqn:Ehl. remember (create_checksum hl data) as cs eqn:Ecs.
+  injection He as <-.
+  destruct (create_checksum_props hl data) as [Lcs Hcs]. rewrite <- Ecs in Lcs, Hcs.
+  destruct (check_hrp_lowered hrp c Ec) as (c' & Ec' & Hc'). rewrite <- Ehl in Ec'.
+  assert (Lhl : (1 <= length hl)%nat) by (apply (check_hrp_nonempty hl c' Ec')).
+  unfold decode.
+  assert (Hall : Forall (fun d => d < 32) (data ++ cs)) by (apply Forall_app; split; assumption).
+  match goal with |- context [(?n <? 8)%nat] => destruct (n <? 8)%nat eqn:E8 end.
+  { apply Nat.ltb_lt in E8. rewrite app_length in E8. cbn [length] in E8.
+    rewrite map_length, app_length, Lcs in E8. lia. }
+  rewrite rfind_last by (apply to_char_not_sep; exact Hall).
+  rewrite firstn_len.
+  change (S (length hl)) with (1 + length hl)%nat. rewrite Nat.add_comm, skipn_add_hl.
+  destruct (length (map to_char (data ++ cs)) <? 6)%nat eqn:E6.
+  { apply Nat.ltb_lt in E6. rewrite map_length, app_length, Lcs in E6. lia. }
+  rewrite Ec'. cbn [bind].
+  assert (Hhl : hrp_lower c' hl = hl) by (destruct c'; [congruence|reflexivity|reflexivity]).
+  rewrite Hhl, (decode_chars_to_char _ Hall c' Hc'). cbn [bind].
+  unfold verify_checksum. rewrite Ecs at 1. rewrite checksum_valid. change (1 =? 1) with true. cbv iota.
+  rewrite app_length, Lcs. replace (length data + 6 - 6)%nat with (length data) by lia.
+  now rewrite firstn_len.
+Qed.
